@@ -1,0 +1,61 @@
+//! Verification hooks: only compiled with `--cfg mathcat_verif`.
+//! Nothing here changes behaviour: the accessors are read-only projections of the session
+//! state and the event sink is a thread-local vector that stays disabled until a harness enables it.
+#![allow(clippy::needless_return)]
+use std::cell::RefCell;
+
+thread_local! {
+    static ENABLED: RefCell<bool> = const { RefCell::new(false) };
+    static EVENTS: RefCell<Vec<String>> = const { RefCell::new(Vec::new()) };
+}
+
+/// Turn the thread-local event sink on or off (off by default).
+pub fn enable_events(on: bool) {
+    ENABLED.with(|e| *e.borrow_mut() = on);
+}
+
+/// Take all events recorded so far in this thread (each is one JSON object).
+pub fn drain_events() -> Vec<String> {
+    return EVENTS.with(|ev| std::mem::take(&mut *ev.borrow_mut()));
+}
+
+/// Record one event `{"ev": kind, ...fields}`; `fields` are (name, already-JSON-encoded value) pairs.
+pub fn emit(kind: &str, fields: &[(&str, String)]) {
+    if !ENABLED.with(|e| *e.borrow()) {
+        return;
+    }
+    let mut s = format!("{{\"ev\":{}", json_str(kind));
+    for (name, value) in fields {
+        s.push(',');
+        s.push_str(&json_str(name));
+        s.push(':');
+        s.push_str(value);
+    }
+    s.push('}');
+    EVENTS.with(|ev| ev.borrow_mut().push(s));
+}
+
+/// JSON string literal for `s`.
+pub fn json_str(s: &str) -> String {
+    let mut out = String::with_capacity(s.len() + 2);
+    out.push('"');
+    for ch in s.chars() {
+        match ch {
+            '"' => out.push_str("\\\""),
+            '\\' => out.push_str("\\\\"),
+            '\n' => out.push_str("\\n"),
+            '\r' => out.push_str("\\r"),
+            '\t' => out.push_str("\\t"),
+            c if (c as u32) < 0x20 => out.push_str(&format!("\\u{:04x}", c as u32)),
+            c => out.push(c),
+        }
+    }
+    out.push('"');
+    return out;
+}
+
+/// JSON array from already-encoded items.
+pub fn json_arr(items: &[String]) -> String {
+    return format!("[{}]", items.join(","));
+}
+
